@@ -211,9 +211,12 @@ def build(sc):
         for f, token, sameid in sc["readd"]:
             if os.path.isdir(os.path.join(wroot, os.path.dirname(f))) and not os.path.lexists(os.path.join(wroot, f)):
                 _write(wroot, f, token + "\nre-added\n")
-                if fmt != "git" and sameid and f in ids:
-                    wt.add([f], ids=[ids[f]])
-                else:
+                try:
+                    if fmt != "git" and sameid and f in ids:
+                        wt.add([f], ids=[ids[f]])
+                    else:
+                        wt.add([f])
+                except Exception:       # the id is in use (a conflict helper of the previous merge carries it)
                     wt.add([f])
                 user[f] = token + "\nre-added\n"
     if cmd == "update":
@@ -346,6 +349,15 @@ def remove_facts(sc, b):
 
 
 def run_scenario(seed_tuple):
+    """never raises (an exception object that cannot be unpickled would hang the pool)"""
+    try:
+        return _run_scenario(seed_tuple)
+    except Exception as e:
+        import traceback
+        return dict(harness_error="%s: %s" % (type(e).__name__, traceback.format_exc()[-500:]), id=list(seed_tuple))
+
+
+def _run_scenario(seed_tuple):
     """build, run the command on the real code, return everything the checks need (JSON-able)"""
     from breezy.workingtree import WorkingTree
     sc = gen_scenario(seed_tuple)
@@ -394,6 +406,14 @@ OTHER_EDITS = ["none", "top", "bottom", "line0", "line2", "delete", "same"]
 
 
 def run_merge_case(case):
+    try:
+        return _run_merge_case(case)
+    except Exception as e:
+        import traceback
+        return dict(harness_error="%s: %s" % (type(e).__name__, traceback.format_exc()[-500:]))
+
+
+def _run_merge_case(case):
     """case = [fmt, this_edit, other_edit, k]"""
     from breezy.workingtree import WorkingTree
     fmt, te, oe, k = case
@@ -613,9 +633,17 @@ def run(ctx, n=None):
     seeds = _corpus() + _scenarios(ctx, n)
     results = ctx.pmap(run_scenario, seeds)
     cases, lines, impls = [], [], []
+    nerr = 0
     for res in results:
+        if "harness_error" in res:
+            nerr += 1
+            ctx.count("harness-error:" + res["harness_error"].split(":")[0])
+            ctx.extra.setdefault("harness_errors", []).append(dict(id=res["id"], error=res["harness_error"][-300:]))
+            continue
         c, l, i = check_scenario(ctx, res, flag)
         cases += c; lines += l; impls += i
+    if nerr > max(3, len(results) // 10):
+        raise env.InfraError("too many scenarios could not be built: %r" % ctx.extra["harness_errors"][:2])
     # ---- S2 backup names (Rust osutils.available_backup_name, and the transform's wrapper)
     from breezy import osutils
     rng = ctx.rng
@@ -646,6 +674,9 @@ def run(ctx, n=None):
     if ctx.tier == "quick":
         mcases = rng.sample(mcases, 28)
     for mc, r in zip(mcases, ctx.pmap(run_merge_case, mcases)):
+        if "harness_error" in r:
+            ctx.count("harness-error:merge:" + r["harness_error"].split(":")[0])
+            continue
         ctx.case(dict(merge=mc[:3]), nontrivial=r["this_changed"])
         ctx.count("merge:%s/%s:%s" % (mc[1], mc[2], r["fate"]))
         if r["this_changed"] and r["fate"] == "gone":
